@@ -218,6 +218,38 @@ fn scenario(
     Scenario { name, pre, pool }
 }
 
+/// A tick whose candidates live in BOTH instances of `pre_portal` (W0 and the descended W1):
+/// `parts` = (instance, program indices); carriers are numbered consecutively across the parts so
+/// no two candidates share a scope node id.  Several candidates per instance land on different
+/// virtual shards, so the executor sees >= 2 work units for one instance next to units of another.
+fn scenario_multi(name: &'static str, base: RefState, parts: &[(W, &[usize])], second_rule_on: &[usize]) -> Scenario {
+    let m = menu();
+    let mut pre = base;
+    let mut placed: Vec<(W, N, Program)> = Vec::new();
+    let mut k = 0usize;
+    for (w, progs) in parts {
+        for i in *progs {
+            let n: N = CARRIER0 + k as N;
+            let p = m[*i].clone();
+            pre.nodes.insert((*w, n), 2);
+            pre.atts.insert(RefSlot::Node(*w, n), p.carrier_att());
+            placed.push((*w, n, p));
+            k += 1;
+        }
+    }
+    let mut pool = Vec::new();
+    for (j, (w, n, p)) in placed.iter().enumerate() {
+        if !crate::ref_matches(p, &pre, *w) {
+            continue;
+        }
+        pool.push(((RULE_A, *w, *n), p.clone()));
+        if second_rule_on.contains(&j) {
+            pool.push(((RULE_B, *w, *n), p.clone()));
+        }
+    }
+    Scenario { name, pre, pool }
+}
+
 /// Scenarios.  `level` 0 = quick, 1 = thorough (adds the re-parent program, which the known C04
 /// replay defect touches but whose *tick outcome* is lawful).
 pub fn scenarios(level: u8) -> Vec<Scenario> {
@@ -225,6 +257,9 @@ pub fn scenarios(level: u8) -> Vec<Scenario> {
         scenario("chain", pre_chain(), 0, &[0, 1, 2, 3, 5, 6, 7, 8], &[0, 2]),
         scenario("diamond", pre_diamond(), 0, &[0, 1, 4, 9, 10, 7, 8, 5], &[1]),
         scenario("portal-child", pre_portal(), 1, &[0, 1, 2, 5, 8, 10], &[0]),
+        // W0: new edge e2 (n2→n0), read-only, retype n2?  (program 5 retypes n1, which carries the
+        // portal: a node upsert keeps the attachment) — W1: set / copy attachment, new edge
+        scenario_multi("two-instance", pre_portal(), &[(0, &[2, 8, 5]), (1, &[0, 1, 2])], &[3]),
     ];
     if level > 0 {
         v.push(scenario(
